@@ -23,7 +23,8 @@ ALL_STRATS = ('sorted', 'max', 'naive', 'timesorted', 'bucketmax', 'random')
 
 def base(strat, creates):
   return {'strategy': strat, 'max_creates': creates, 'files': ('a',), 'init': [('a', 1, 1.0)],
-          'reactor': [('store', 'b', 1, 2.0), ('store', 'a', 2, 3.0), ('store', 'c', 1, 4.0)],
+          # (the third series has the EMPTY name: the pickle listener accepts it and the feeder stores it as received)
+          'reactor': [('store', 'b', 1, 2.0), ('store', 'a', 2, 3.0), ('store', '', 1, 4.0)],
           'passes': 2, 'faults': True, 'oracles': ('c03',)}
 
 
